@@ -47,9 +47,9 @@ def gen_c02_sites():
     ub, ub_line = _body(s, r'double\s+RTBSS<M>::upperBound\s*\(', 'RTBSS::upperBound')
     if re.search(r'return\s+model_\.getDiscount\(\)\s*\*\s*maxR_\s*\*\s*horizon\s*;', ub):
         geometric = False
-    elif (re.search(r'for\s*\(\s*unsigned\s+t\s*=\s*0\s*;\s*t\s*<\s*horizon\s*;\s*\+\+t\s*\)', ub)
-          and re.search(r'd\s*\*=\s*model_\.getDiscount\(\)\s*;', ub) and re.search(r'bound\s*\+=\s*d\s*\*\s*maxR_\s*;', ub)
-          and re.search(r'double\s+bound\s*=\s*0\.0\s*,\s*d\s*=\s*1\.0\s*;', ub) and re.search(r'return\s+bound\s*;', ub)):
+    elif re.search(r'double\s+bound\s*=\s*0\.0\s*,\s*d\s*=\s*1\.0\s*;\s*for\s*\(\s*unsigned\s+t\s*=\s*0\s*;\s*t\s*<\s*horizon\s*;\s*\+\+t\s*\)\s*\{\s*'
+                   r'd\s*\*=\s*model_\.getDiscount\(\)\s*;\s*bound\s*\+=\s*d\s*\*\s*maxR_\s*;\s*\}\s*return\s+bound\s*;', ub):
+        # discount first, then accumulate: sum_{t=1..h} discount^t * maxR (the order matters: the model's rtGeoLoop does the same)
         geometric = True
     else:
         raise E.ExtractError('RTBSS::upperBound has neither the linear nor the geometric form the model knows')
